@@ -683,9 +683,18 @@ fn signal_storm(on: bool) {
             libc::sigemptyset(&mut sa.sa_mask);
             libc::sigaction(libc::SIGALRM, &sa, std::ptr::null_mut());
         }
+        let mut set: libc::sigset_t = std::mem::zeroed();
+        libc::sigemptyset(&mut set);
+        libc::sigaddset(&mut set, libc::SIGALRM);
+        if on {
+            libc::pthread_sigmask(libc::SIG_UNBLOCK, &set, std::ptr::null_mut());
+        }
         let iv = libc::timeval { tv_sec: 0, tv_usec: if on { 50 } else { 0 } };
         let t = libc::itimerval { it_interval: iv, it_value: iv };
         libc::setitimer(libc::ITIMER_REAL, &t, std::ptr::null_mut());
+        if !on {
+            libc::pthread_sigmask(libc::SIG_BLOCK, &set, std::ptr::null_mut());
+        }
     }
 }
 
